@@ -29,7 +29,7 @@ class Source:
 # ---- global rewrites: (id, regex on masked text, replacement or callable, description)
 GLOBAL_REWRITES = [
     ('R5a', re.compile(r'\bpub\(crate\)'), 'pub', 'pub(crate) -> pub'),
-    ('R5b', re.compile(r'(?m)^[ \t]*#\[(?:allow|must_use|deprecated|cfg\(feature = "default-rng"\)|inline)[^\]]*\][ \t]*\n?'), '',
+    ('R5b', re.compile(r'(?m)^[ \t]*#\[(?:allow|must_use|deprecated|cfg\(feature = "[^"]*"\)|inline)[^\]]*\][ \t]*\n?'), '',
      'attribute dropped'),
     ('R5c', re.compile(r'(?m)^([ \t]*)const (?=[A-Z_0-9]+\s*:[^;\n]*=)'), lambda m: m.group(1) + 'pub const ', 'const -> pub const'),
     ('R1', re.compile(r'\.to_le_bytes\(\)\[0\]'), '.le0()', 'x.to_le_bytes()[0] -> x.le0() (assumed: x mod 256)'),
@@ -39,6 +39,8 @@ GLOBAL_REWRITES = [
     ('R13', re.compile(r'<&\[u8; (\d+)\]>::try_from\(([^\n]*?)\)\.expect\("[^"\n]*"\)'),
      lambda m: 'vp_as_array::<%s>(%s)' % (m.group(1), m.group(2)),
      '<&[u8;N]>::try_from(s).expect(..) -> vp_as_array::<N>(s) (assumed: succeeds iff s.len()==N, which becomes a precondition)'),
+    ('R3b', re.compile(r'(key_gen::<CTEST, K, L, PK_LEN, SK_LEN)>'), lambda m: m.group(1) + ', _>',
+     'explicit generic list of key_gen gets a trailing `_` for the generic that replaces `impl CryptoRngCore` (R3)'),
     ('R12', re.compile(r'\b(i32|i64|usize)::from\('), lambda m: '<%s as VpFrom<_>>::vp_from(' % m.group(1),
      'T::from(x) -> <T as VpFrom<_>>::vp_from(x) (assumed: lossless widening conversion, prelude VpFrom)'),
 ]
@@ -55,6 +57,7 @@ class Builder:
         self.repo, self.vdir = repo, vdir
         self.canary = canary          # None, or predicate(contract) -> bool: insert `assert(false)` canaries
         self.canaries = []            # (key, instance, where)
+        self.modconsts = []           # parameter-set constants written as literals in the template (checked natively)
         self.const_checks = []        # fn-local consts replaced by literals: verified natively by const evaluation
         self.src = {n: Source(repo, n) for n in SRC_FILES}
         self.contracts = load_all(os.path.join(vdir, 'contracts'))
@@ -94,6 +97,9 @@ class Builder:
             src = self.src[m.group(1)]
             if len(re.findall(m.group(2), src.text)) != 1:
                 raise ToolError('expected source text not found exactly once in %s: %s' % (m.group(1), m.group(2)))
+        elif cmd == 'modconsts':
+            a = arg.split()
+            self.modconsts.append(dict(module=a[0], values=dict(x.split('=') for x in a[1:])))
         elif cmd == 'instance':
             self.instance = arg.strip()
         elif cmd == 'fn':
@@ -136,7 +142,35 @@ class Builder:
         if sp is None:
             raise ToolError('item %r not found in %s' % (header_re, fname))
         edits = []
-        if sp.body_open >= 0:
+        ic = self.contracts.get(prefix + '::@item')
+        if ic is not None:
+            # item-level insertions / rewrites (e.g. spec fns injected into a trait or impl block)
+            self.used.add(prefix + '::@item')
+            t = s.text
+            for (kind, arg), lines in ic.ats:
+                cnt = t.count(arg, sp.start, sp.end)
+                if kind not in ('before', 'after') or cnt != 1:
+                    self.problems.append('%s::@item: anchor `%s` occurs %d times' % (prefix, arg, cnt))
+                    continue
+                pos = t.index(arg, sp.start, sp.end)
+                pos = pos if kind == 'before' else pos + len(arg)
+                txt = '\n' + '\n'.join(x[1] for x in lines) + '\n'
+                edits.append(Edit(pos, pos, txt, 'contract', cfile=os.path.basename(ic.path), cline=ic.line,
+                                  linetags=[None] + [x[0] for x in lines] + [None]))
+            for rx, tmpl in ic.rewrites_re:
+                hits = list(re.finditer(rx, t[sp.start:sp.end], re.S))
+                if len(hits) != 1:
+                    self.problems.append('%s::@item: rewrite_re `%s` matches %d times' % (prefix, rx, len(hits)))
+                    continue
+                mt = hits[0]
+                newt = mt.expand(tmpl) if tmpl else ''
+                edits.append(Edit(sp.start + mt.start(), sp.start + mt.end(), newt, 'explicit-re', cfile=os.path.basename(ic.path), cline=ic.line))
+                self.rewrites.append(dict(rule='explicit', file=s.name, line=s.line(sp.start + mt.start()), fn=prefix + '::@item', old=mt.group(0), new=newt))
+        mfn = re.match(r'(?:pub(?:\([a-z]+\))?\s+)?(?:const\s+)?fn\s+([A-Za-z_][A-Za-z0-9_]*)', s.mask[sp.start:sp.start + 200])
+        if mfn:
+            # the item itself is a function (e.g. a free fn inside the macro body)
+            edits += self.fn_edits(s, sp, prefix + '::' + mfn.group(1))
+        elif sp.body_open >= 0:
             # every fn inside the item that has a contract gets it; others are copied verbatim
             for mt in re.finditer(r'\bfn\s+([A-Za-z_][A-Za-z0-9_]*)', s.mask[sp.body_open:sp.body_close]):
                 nm = mt.group(1)
@@ -185,7 +219,20 @@ class Builder:
             mn = re.search(r'\bfn\s+[A-Za-z_0-9]+', m[sp.start:sig_end0])
             pos = sp.start + mn.end()
             if m[pos] == '<':
-                edits.append(Edit(pos + 1, pos + 1, 'VpG: CryptoRngCore, ', 'R3'))
+                # append as the LAST generic parameter so that explicit turbofish lists only need a trailing `_`
+                depth, q = 0, pos
+                while True:
+                    if m[q] == '<':
+                        depth += 1
+                    elif m[q] == '>':
+                        depth -= 1
+                        if depth == 0:
+                            break
+                    q += 1
+                k2 = q - 1
+                while m[k2] in ' \t\n':
+                    k2 -= 1
+                edits.append(Edit(q, q, ('' if m[k2] == ',' else ', ') + 'VpG: CryptoRngCore', 'R3'))
             else:
                 edits.append(Edit(pos, pos, '<VpG: CryptoRngCore>', 'R3'))
             self.rewrites.append(dict(rule='R3', file=s.name, line=s.line(a0), fn=key, old='&mut impl CryptoRngCore', new='<VpG: CryptoRngCore> ... &mut VpG'))
@@ -229,6 +276,9 @@ class Builder:
             while m[a] in ' \t\n':
                 a += 1
             b = sig_end
+            mw = re.search(r'\bwhere\b', m[a:sig_end])
+            if mw:
+                b = a + mw.start()
             while m[b - 1] in ' \t\n':
                 b -= 1
             edits.append(Edit(a, a, '(' + c.ret + ': ', 'contract', **ck))
